@@ -8,7 +8,7 @@ structure BusState where
   maxMsg : Nat := MAX_MESSAGE_LENGTH
 
 def showOut : Out → String
-  | .deliver to m => s!"D {to} {showMsg m 0}"
+  | .deliver to m => s!"D {to} {showMsgX m 0}"
   | .opaque to rs => s!"O {to} {rs}"
   | .close c => s!"C {c}"
 
